@@ -61,6 +61,12 @@ claim("C02", "For each of the 7 loop modes (and an out-of-table mode byte) the r
       "lambdas and index validators of all five entry kinds, the entry adapter's FAT request, loop-point splitting, sample collection and frequency codes "
       "are separate obligations.", XT + " (NpShim for reversal)", "DESIGN.md 2/C02")
 
+claim("C09", "Byte-level container independence is decided symbolically: a read through the real MdfStream over the independently wrapped image returns the "
+      "image's own bytes (histories, incl. the depth-4 nesting and reads across 2048-byte boundaries); the real MdxStream with a stubbed header (symbolic eof) "
+      "exposes exactly the bytes behind the 64-byte header for every image length; the real determine_image_type / attempt_parse_cue_sheet choose wrapper and "
+      "parser from the detector outcomes only, Roland/AKAI decided on the unwrapped stream; the mdf/mdx signature tests react only to signature bytes "
+      "(one symbolic byte per position).", XT, "DESIGN.md 2/C09")
+
 _pending = "check not built yet in this session (work in progress; see DESIGN.md section 2 for the planned obligations)"
 for _p in ["C01","C02","C03","C04","C05","C06","C07","C09","C10","C11","C12","C13","C14","C15","C16","C17","C18","C19","C20"]:
     if _p not in CHECKS:
